@@ -16,10 +16,10 @@ import vlib
 import e2e_common as ec
 
 CFG = {
-    "C03": {"props": ["C03"], "profiles": [("control", 0.8), ("int", 0.2)],
+    "C03": {"props": ["C03", "C03Num"], "profiles": [("control", 0.8), ("int", 0.2)],
             "quick": (2000, 480), "thorough": (20000, 3000), "per_func": 3, "sim": {"quick": 240, "thorough": 2400},
             "what": "control flow / operand stack / locals"},
-    "C04": {"props": ["C04"], "profiles": [("calls", 0.85), ("init", 0.15)],
+    "C04": {"props": ["C04", "C03Num"], "profiles": [("calls", 0.85), ("init", 0.15)],
             "quick": (1500, 400), "thorough": (12000, 3000), "per_func": 4, "sim": {"quick": 300, "thorough": 2400},
             "what": "direct / indirect / recursive / imported calls"},
 }
@@ -71,7 +71,7 @@ def run(tier, PROP="C03"):
         "Model.Emit/Model.Render are hand models of c.c: tied on every run by emit-tokens (coverage below)"]
     chk.assumptions = ["gcc gives goto/labels/switch and calls through cast function pointers of the same signature the structured meaning MiniC assigns (exercised by every e2e run)",
                        "out-of-bounds memory/table accesses and call_indirect signature mismatches are outside the property (w2c2 emits no checks): scripts stop before the first such call"]
-    pr = ec.prove_if_present(chk, cfg["props"])
+    pr = ec.prove_if_present(chk, cfg["props"], ec.GENS + [("LoadStore", "gen_loadstore")])
     broken = list(pr["errors"])
     n_tok, n_e2e = cfg[tier]
     stats = {"errors": [], "calls_compared": 0, "host_calls": 0}
